@@ -265,3 +265,48 @@ def expanded_guards(eng: Engine, fn: FuncInfo, node: ast.AST) -> list[tuple[ast.
         for e2, p2 in split_conj(ex, pol):
             out.append((e2, p2, a))
     return out
+
+
+MUTATORS = {'append', 'extend', 'add', 'update', 'insert', 'remove', 'pop', 'clear', 'discard', 'setdefault', 'popitem', 'appendleft'}
+
+
+def per_instance_state_rule(eng: Engine, ck: Check, rule: str, classes: list[ClassInfo], why: str):
+    """Every container that methods of these classes mutate in place through `self.X` is created per instance (assigned in an
+    `__init__` of the class or of a repo base class).  A mutable value bound at CLASS level and never re-bound per instance is one
+    object shared by all instances: what one instance queues / registers, every other instance sees and cancels."""
+    n = 0
+    for ci in classes:
+        mro = eng.repo.mro(ci)
+        inits = [c.methods['__init__'] for c in mro if '__init__' in c.methods] + [c.methods['__post_init__'] for c in mro if '__post_init__' in c.methods]
+        per_instance = {t.attr for f in inits for nd in walk_local(f.node) if isinstance(nd, (ast.Assign, ast.AnnAssign))
+                        for t in (nd.targets if isinstance(nd, ast.Assign) else [nd.target])
+                        if isinstance(t, ast.Attribute) and isinstance(t.value, ast.Name) and t.value.id == 'self' and getattr(nd, 'value', None) is not None}
+        # dataclass fields with default_factory are per instance as well
+        for c in mro:
+            for st in c.node.body:
+                if isinstance(st, ast.AnnAssign) and isinstance(st.target, ast.Name) and st.value is not None and isinstance(st.value, ast.Call) and \
+                        call_name(st.value) == 'field' and kw(st.value, 'default_factory') is not None:
+                    per_instance.add(st.target.id)
+        mutated: dict[str, tuple[FuncInfo, ast.AST]] = {}
+        for c in mro:
+            for m in c.methods.values():
+                for x in calls_in(m.node):
+                    if isinstance(x.func, ast.Attribute) and x.func.attr in MUTATORS and isinstance(x.func.value, ast.Attribute) and \
+                            isinstance(x.func.value.value, ast.Name) and x.func.value.value.id == 'self':
+                        mutated.setdefault(x.func.value.attr, (m, x))
+        for attr, (m, x) in sorted(mutated.items()):
+            class_level = None
+            for c in mro:
+                for st in c.node.body:
+                    tg = st.targets if isinstance(st, ast.Assign) else [st.target] if isinstance(st, ast.AnnAssign) else []
+                    if any(isinstance(t, ast.Name) and t.id == attr for t in tg) and getattr(st, 'value', None) is not None and \
+                            not (isinstance(st.value, ast.Call) and call_name(st.value) == 'field'):
+                        class_level = (c, st)
+            if class_level is None and attr not in per_instance:
+                continue          # set elsewhere (e.g. by the owner after construction): not this rule's business
+            n += 1
+            ok = attr in per_instance
+            ck.ob(rule, m, x, f'{ci.name}.{attr} (mutated in place by {m.name}) is a per-instance container, created in __init__: {why}', ok,
+                  (f'`{unparse(class_level[1])[:60]}` at class level in {class_level[0].name} and no `self.{attr} = ...` in any __init__: one object shared by every '
+                   f'{ci.name} in the process') if class_level else '', construct=f'{ci.name}.{attr} per instance')
+    return n
